@@ -1,10 +1,11 @@
 (* C01, semantic clause, part 2 of 3: arrays.  Select / Store / ArrayValue and the array branches
    of Equals, against core/Sem.v (arr_assign, OSelect, OStore, OArrayValue).
    Array values of the fragment are in the canonical form of SimplifierSemBase_proofs.arr_node_ok:
-   index sort not an array sort, not Real, not Bool / BV (see there), element sort not Real,
-   indices constants of Int / String sort strictly increasing in Ctors.const_key order, no
-   assigned value syntactically equal to the default.  walk_equals on two constant array values
-   is the extensional comparison const_eqb (const_eqb_sound). *)
+   index sort not an array sort and not Real, element sort not Real, indices constants of Bool /
+   Int / BV / String sort strictly increasing in Ctors.const_key order, no assigned value
+   syntactically equal to the default.  walk_equals on two constant array values is the
+   extensional comparison const_eqb (const_eqb_sound; over Bool / BV by counting the keys of
+   the sort: keys_covered / keys_not_covered). *)
 From Coq Require Import List ZArith Bool String Reals Lia Lra Permutation.
 From Coq Require Import ClassicalDescription FunctionalExtensionality.
 From PySMT.core Require Import Syntax SyntaxLemmas PyPrims Types Sem.
@@ -185,9 +186,12 @@ Lemma alook_cons k v r f x : alook ((k, v) :: r) f x = if key_eq_dec x (kv k) th
 Proof. reflexivity. Qed.
 Lemma alook_nil f x : alook [] f x = f x.
 Proof. reflexivity. Qed.
+(* the default of an array value: on its index sort *)
+Definition cdef (it : ty) (d : term) : key -> value := fun k => if key_sortb k it then eval I d else junk.
 Lemma eval_array it d rest : Nat.even (List.length rest) = true ->
-  eval I (T (OArrayValue it) (d :: rest)) = VArr (alook (pairs_of rest) (fun _ => eval I d)).
+  eval I (T (OArrayValue it) (d :: rest)) = VArr (alook (pairs_of rest) (cdef it d)).
 Proof. intros H. rewrite eval_plain by reflexivity. cbn [map op_sem]. unfold alook. now rewrite flatten_pairs. Qed.
+Definition ksorted (it : ty) (l : list (term * term)) : Prop := Forall (fun p => key_sortb (kv (fst p)) it = true) l.
 
 Lemma kv_inj a b : key_const a = true -> key_const b = true -> kv a = kv b -> a = b.
 Proof.
@@ -223,15 +227,17 @@ Proof.
     + eapply kconsts_perm; eauto.
     + eapply Permutation_NoDup; [|exact Hn]. now apply Permutation_map.
 Qed.
-Lemma alook_filter d : forall l, kconsts l -> NoDup (keys l) -> forall x,
-  alook (filter (fun p => negb (term_eqb (snd p) d)) l) (fun _ => eval I d) x = alook l (fun _ => eval I d) x.
+Lemma alook_filter it d : forall l, kconsts l -> NoDup (keys l) -> ksorted it l -> forall x,
+  alook (filter (fun p => negb (term_eqb (snd p) d)) l) (cdef it d) x = alook l (cdef it d) x.
 Proof.
-  induction l as [|[k v] r IH]; intros Hc Hn x; [reflexivity|].
-  inversion Hc as [|? ? Hk Hc']; subst. inversion Hn as [|? ? Hnin Hn']; subst. cbn [filter snd].
+  induction l as [|[k v] r IH]; intros Hc Hn Hs x; [reflexivity|].
+  inversion Hc as [|? ? Hk Hc']; subst. inversion Hn as [|? ? Hnin Hn']; subst. inversion Hs as [|? ? Hsk Hs']; subst. cbn [filter snd].
   destruct (term_eqb v d) eqn:E; cbn [negb]; rewrite !alook_cons.
   - apply term_eqb_sound in E. subst v. destruct (key_eq_dec x (kv k)) as [->|]; [|apply IH; auto].
-    apply alook_notin. intros p Hp E. apply filter_In in Hp. destruct Hp as [Hp _]. apply Hnin.
-    unfold kconsts in Hc'. rewrite Forall_forall in Hc'. apply kv_inj in E; auto. subst k. apply in_map_iff. exists p. auto.
+    rewrite alook_notin.
+    + unfold cdef. cbn in Hsk. now rewrite Hsk.
+    + intros p Hp E. apply filter_In in Hp. destruct Hp as [Hp _]. apply Hnin.
+      unfold kconsts in Hc'. rewrite Forall_forall in Hc'. apply kv_inj in E; auto. subst k. apply in_map_iff. exists p. auto.
   - now rewrite IH.
 Qed.
 Lemma alook_assoc_set f i v : key_const i = true -> forall l, kconsts l -> forall x,
@@ -302,12 +308,23 @@ Qed.
 
 Section ArrRules.
 Variable I : interp.
+Hypothesis Hwf : wfi I.
 Notation res_ok := (res_ok I).
 Notation alook := (alook I).
+Notation cdef := (cdef I).
+
+(* the keys of well-sorted index terms are keys of the index sort *)
+Lemma kv_sorted k it : okt k = true -> tc k = Some it -> key_sortb (kv I k) it = true.
+Proof. intros O Tc. unfold kv. apply has_ty_key_sortb. now apply okt_sound. Qed.
+Lemma ksorted_of it td L : pokt L -> ptyped it td L -> ksorted I it L.
+Proof.
+  intros Ho Hty. unfold pokt, ptyped in *. rewrite Forall_forall in Ho, Hty. apply Forall_forall. intros p Hp.
+  destruct (Ho p Hp), (Hty p Hp). now apply kv_sorted.
+Qed.
 
 Lemma mk_array_sound it d td L r : idx_ok it = true -> elt_ok (Some td) = true -> okt d = true -> tc d = Some td ->
   kconsts L -> NoDup (keys L) -> pokt L -> ptyped it td L -> mk_array it d L = Some r ->
-  okt r = true /\ tc r = Some (TArr it td) /\ eval I r = VArr (alook L (fun _ => eval I d)).
+  okt r = true /\ tc r = Some (TArr it td) /\ eval I r = VArr (alook L (cdef it d)).
 Proof.
   intros Hit Hel Od Td Hc Hn Ho Hty E. unfold mk_array in E. destruct (forallb _ L); [|discriminate]. inversion E; subst r. clear E.
   set (P := fun kv : term * term => negb (term_eqb (snd kv) d)).
@@ -329,7 +346,7 @@ Proof.
       destruct (Hin p Hp) as [Hp' _]. unfold pokt in Ho. rewrite Forall_forall in Ho. destruct (Ho p Hp'). destruct Hx; subst; auto.
   - apply tc_array; auto. apply Forall_forall. intros p Hp. destruct (Hin p Hp) as [Hp' _]. unfold ptyped in Hty. rewrite Forall_forall in Hty. auto.
   - rewrite eval_array by apply even_flatten. rewrite pairs_flatten. f_equal. apply functional_extensionality. intros x.
-    rewrite <- (alook_filter I d L Hc Hn x). symmetry. apply alook_perm; auto. now apply Permutation_sym.
+    rewrite <- (alook_filter I it d L Hc Hn (ksorted_of it td L Ho Hty) x). symmetry. apply alook_perm; auto. now apply Permutation_sym.
 Qed.
 
 Lemma arr_keys_parts it d rest : arr_keys_ok it d rest = true ->
@@ -416,7 +433,8 @@ Proof.
   pose proof (const_key_const i it Oi Hi Ci (idx_ok_basic _ Hit)) as Ki.
   assert (Ev : eval I (T OSelect [T (OArrayValue it) (d :: rest); i]) =
                match assoc_get i (pairs_of rest) with Some v => eval I v | None => eval I d end).
-  { rewrite eval_plain by reflexivity. cbn [map op_sem]. rewrite eval_array by auto. fold (kv I i). now rewrite alook_assoc_get. }
+  { rewrite eval_plain by reflexivity. cbn [map op_sem]. rewrite eval_array by auto. fold (kv I i). rewrite alook_assoc_get by auto.
+    destruct (assoc_get i (pairs_of rest)); [reflexivity|]. unfold SimplifierSemArr_proofs.cdef. now rewrite (kv_sorted i it Oi Hi). }
   rewrite Ev. destruct (assoc_get i (pairs_of rest)) as [v|] eqn:G.
   - apply assoc_get_In in G. unfold pokt in Ho. unfold ptyped in Hty. rewrite Forall_forall in Ho, Hty.
     destruct (Ho _ G) as [_ Ov]. destruct (Hty _ G) as [_ Tv]. repeat split; auto.
@@ -426,14 +444,16 @@ End ArrRules.
 
 (* ================================================================== equality of two constant arrays *)
 Open Scope Z_scope.
-(* an index that no constant of a finite list denotes, for the infinite index sorts *)
+(* an index OF THE SORT that no constant of a finite list denotes, for the infinite index sorts *)
 Definition kmeas (t : term) : Z :=
   match top t with OIntC z => Z.abs z | OStrC s => Z.of_nat (List.length s) | _ => 0 end.
 Definition fresh_key (it : ty) (m : Z) : key :=
-  match it with TInt => KInt m | TStr => KStr (repeat 0 (Z.to_nat m)) | _ => KNone end.
-Definition infinite_idx (it : ty) : bool := match it with TBool | TBV _ => false | _ => true end.
+  match it with TInt => KInt m | TStr => KStr (repeat 0 (Z.to_nat m)) | TUser n _ => KU n 0 | _ => KNone end.
+Definition infinite_idx (it : ty) : bool := match it with TInt | TStr | TUser _ _ => true | _ => false end.
 Lemma kmeas_nonneg t : 0 <= kmeas t.
 Proof. unfold kmeas. destruct (top t); lia. Qed.
+Lemma fresh_sorted it m : infinite_idx it = true -> key_sortb (fresh_key it m) it = true.
+Proof. destruct it; cbn; try discriminate; auto. intros _. apply String.eqb_refl. Qed.
 Lemma fresh_ne I it k m : key_const k = true -> tc k = Some it -> infinite_idx it = true -> kmeas k < m ->
   kv I k <> fresh_key it m.
 Proof.
@@ -445,24 +465,89 @@ Proof.
     rewrite repeat_length in E. lia.
 Qed.
 Lemma fresh_exists I it : forall ks : list term, Forall (fun k => key_const k = true /\ tc k = Some it) ks ->
-  infinite_idx it = true -> exists x, forall k, In k ks -> kv I k <> x.
+  infinite_idx it = true -> exists x, key_sortb x it = true /\ forall k, In k ks -> kv I k <> x.
 Proof.
-  intros ks F Hi. exists (fresh_key it (1 + fold_right (fun k s => kmeas k + s) 0 ks)).
+  intros ks F Hi. exists (fresh_key it (1 + fold_right (fun k s => kmeas k + s) 0 ks)). split; [now apply fresh_sorted|].
   intros k Hk. rewrite Forall_forall in F. destruct (F k Hk) as [Kc Tk]. apply fresh_ne; auto.
   clear F. induction ks as [|k' r IH]; [contradiction|]. cbn [fold_right].
   assert (0 <= fold_right (fun k s => kmeas k + s) 0 r) by (clear; induction r; cbn; [lia | pose proof (kmeas_nonneg a); lia]).
   pose proof (kmeas_nonneg k'). destruct Hk as [->|Hk]; [lia | specialize (IH Hk); lia].
+Qed.
+
+(* the finite index sorts: all their keys *)
+Definition allkeys (it : ty) : list key :=
+  match it with
+  | TBool => [KBool false; KBool true]
+  | TBV w => map (fun n => KBV w (Z.of_nat n)) (seq 0 (Z.to_nat (2 ^ w)))
+  | _ => []
+  end.
+Definition finite_idx (it : ty) : bool := match it with TBool | TBV _ => true | _ => false end.
+Lemma allkeys_spec it k : finite_idx it = true -> (key_sortb k it = true <-> In k (allkeys it)).
+Proof.
+  destruct it; try discriminate; intros _; cbn [allkeys].
+  - destruct k; cbn; try (split; [discriminate | intros [H|[H|[]]]; discriminate H]).
+    destruct b; cbn; tauto.
+  - rewrite in_map_iff. destruct k; cbn; try (split; [discriminate | intros (m0 & H & _); discriminate H]).
+    rewrite !andb_true_iff, Z.eqb_eq, Z.leb_le, Z.ltb_lt. split.
+    + intros [[-> H0] H1]. exists (Z.to_nat v). split; [now rewrite Z2Nat.id|]. apply in_seq. lia.
+    + intros (m0 & [= <- <-] & Hn). apply in_seq in Hn. lia.
+Qed.
+Lemma allkeys_NoDup it : NoDup (allkeys it).
+Proof.
+  destruct it; cbn; try constructor.
+  - intros [H|[]]; discriminate H.
+  - constructor; [intros [] | constructor].
+  - apply FinFun.Injective_map_NoDup; [|apply seq_NoDup]. intros a b [= H]. lia.
+Qed.
+Lemma allkeys_length it n : finite_idx it = true -> idx_covered it (Z.of_nat n) = true <-> (List.length (allkeys it) <= n)%nat.
+Proof.
+  destruct it; try discriminate; intros _; cbn.
+  - rewrite Z.leb_le. lia.
+  - rewrite map_length, seq_length, Z.leb_le. pose proof (Z.pow_nonneg 2 w ltac:(lia)). lia.
+Qed.
+Lemma NoDup_map_on {A B} (f : A -> B) : forall l, NoDup l -> (forall a b, In a l -> In b l -> f a = f b -> a = b) -> NoDup (map f l).
+Proof.
+  induction l as [|x r IH]; intros Hn Hinj; cbn; constructor.
+  - inversion Hn as [|? ? Hx _]; subst. intros Hin. apply in_map_iff in Hin. destruct Hin as (y & E & Hy).
+    apply Hx. rewrite <- (Hinj y x); cbn; auto.
+  - inversion Hn; subst. apply IH; auto. intros a b Ha Hb. apply Hinj; cbn; auto.
+Qed.
+(* counting: a duplicate-free list of keys of a finite sort either contains them all or misses one *)
+Lemma keys_covered it (L : list key) : finite_idx it = true -> NoDup L -> (forall x, In x L -> key_sortb x it = true) ->
+  idx_covered it (zlen L) = true -> forall x, key_sortb x it = true -> In x L.
+Proof.
+  intros Hf Hn Hs Hc x Hx. unfold zlen in Hc. apply (allkeys_length it _ Hf) in Hc.
+  apply (NoDup_length_incl Hn Hc); [|now apply allkeys_spec]. intros y Hy. apply allkeys_spec; auto.
+Qed.
+Lemma keys_not_covered it (L : list key) : finite_idx it = true -> NoDup L -> (forall x, In x L -> key_sortb x it = true) ->
+  idx_covered it (zlen L) = false -> exists x, key_sortb x it = true /\ ~ In x L.
+Proof.
+  intros Hf Hn Hs Hc. destruct (classic (exists x, key_sortb x it = true /\ ~ In x L)) as [|Hno]; auto. exfalso.
+  assert (Hincl : incl (allkeys it) L).
+  { intros x Hx. destruct (classic (In x L)); auto. exfalso. apply Hno. exists x. split; auto. now apply allkeys_spec. }
+  pose proof (NoDup_incl_length (allkeys_NoDup it) Hincl) as Hl. apply (allkeys_length it _ Hf) in Hl. unfold zlen in Hc. congruence.
 Qed.
 Close Scope Z_scope.
 
 Lemma is_constant_array it l : is_constant (T (OArrayValue it) l) = forallb is_constant l.
 Proof. cbn [is_constant]. induction l as [|x r IH]; [reflexivity|]. cbn [forallb]. now rewrite <- IH. Qed.
 
-Lemma idx_ok_infinite it : idx_ok it = true -> infinite_idx it = true.
-Proof. destruct it; cbn; auto. Qed.
-Lemma idx_ok_not_covered it n : idx_ok it = true -> idx_covered it n = false.
+Lemma idx_ok_cases it : idx_ok it = true -> infinite_idx it = true \/ finite_idx it = true.
 Proof. destruct it; cbn; auto; discriminate. Qed.
-
+Lemma infinite_not_covered it n : infinite_idx it = true -> idx_covered it n = false.
+Proof. destruct it; cbn; auto; discriminate. Qed.
+Lemma NoDup_app' {A} (a b : list A) : NoDup a -> NoDup b -> (forall x, In x a -> ~ In x b) -> NoDup (a ++ b).
+Proof.
+  induction a as [|x r IH]; intros Ha Hb Hd; cbn; auto. inversion Ha as [|? ? Hx Hr]; subst. constructor.
+  - intros Hin. apply in_app_or in Hin. destruct Hin as [Hin|Hin]; [auto | apply (Hd x); cbn; auto].
+  - apply IH; auto. intros y Hy. apply Hd. cbn; auto.
+Qed.
+Lemma union_keys_NoDup a b : NoDup a -> NoDup b -> NoDup (union_keys a b).
+Proof.
+  intros Ha Hb. unfold union_keys. apply NoDup_app'; auto; [now apply NoDup_filter|].
+  intros x Hx Hin. apply filter_In in Hin. destruct Hin as [_ Hin]. apply negb_true_iff in Hin.
+  assert (C : existsb (term_eqb x) a = true) by (apply existsb_exists; exists x; split; auto; apply term_eqb_refl). congruence.
+Qed.
 Lemma union_keys_In a b k : In k (union_keys a b) <-> In k a \/ In k b.
 Proof.
   unfold union_keys. rewrite in_app_iff, filter_In. split.
@@ -514,7 +599,7 @@ Qed.
 Lemma const_array_parts l it e : okt l = true -> tc l = Some (TArr it e) -> is_constant l = true ->
   exists d rest, l = T (OArrayValue it) (d :: rest) /\ tc d = Some e /\ okt d = true /\ is_constant d = true /\
     idx_ok it = true /\ Nat.even (List.length rest) = true /\ kconsts (pairs_of rest) /\ NoDup (keys (pairs_of rest)) /\
-    ptyped it e (pairs_of rest) /\
+    ptyped it e (pairs_of rest) /\ pokt (pairs_of rest) /\
     (forall k, okt (arr_get k (pairs_of rest) d) = true /\ tc (arr_get k (pairs_of rest) d) = Some e /\
                is_constant (arr_get k (pairs_of rest) d) = true).
 Proof.
@@ -525,6 +610,7 @@ Proof.
   destruct (arr_value_parts _ _ _ _ O Tc) as (td & Ety & Td & Od & Hit & Hel & Hev & Hc & Hs & Ho & Hty & _).
   inversion Ety; subst. rewrite is_constant_array in C. cbn [forallb] in C. apply andb_true_iff in C. destruct C as [Cd Cr].
   exists d, rest. repeat split; auto. { now apply keys_sorted_NoDup. }
+  all: try exact Ho.
   all: unfold arr_get; destruct (assoc_get k (pairs_of rest)) as [v|] eqn:G; auto; apply assoc_get_In in G;
     unfold pokt, ptyped in *; rewrite Forall_forall in Ho, Hty; destruct (Ho _ G) as [_ Ov]; destruct (Hty _ G) as [_ Tv]; auto.
   rewrite forallb_forall in Cr. apply Cr. now destruct (pairs_of_In _ _ G).
@@ -541,40 +627,63 @@ Proof.
     destruct l as [ol ll]. destruct ol; try discriminate Al.
     destruct (tc_inv _ _ _ Tl) as (tys & _ & Hr). cbn in Hr. destruct tys as [|td trest]; [discriminate|].
     destruct (array_value_ok it td trest true); [|discriminate]. inversion Hr; subst t. clear Hr.
-    destruct (const_array_parts _ it td Ol Tl Cl) as (dl & rl & El & Tdl & Odl & Cdl & Hit & Hevl & Hcl & Hnl & Htyl & Gl).
+    destruct (const_array_parts _ it td Ol Tl Cl) as (dl & rl & El & Tdl & Odl & Cdl & Hit & Hevl & Hcl & Hnl & Htyl & Hol & Gl).
     inversion El; subst ll. clear El.
-    destruct (const_array_parts _ it td Or Tr Cr) as (dr & rr & -> & Tdr & Odr & Cdr & _ & Hevr & Hcr & Hnr & Htyr & Gr).
+    destruct (const_array_parts _ it td Or Tr Cr) as (dr & rr & -> & Tdr & Odr & Cdr & _ & Hevr & Hcr & Hnr & Htyr & Hor & Gr).
     cbn zeta in E. set (pl := pairs_of rl) in *. set (pr := pairs_of rr) in *.
     set (ks := union_keys (keys pl) (keys pr)) in *.
     rewrite !eval_array by auto. fold pl pr.
-    assert (Hk : forall k, In k ks -> key_const k = true /\ tc k = Some it).
-    { intros k Hk. apply union_keys_In in Hk. unfold kconsts, ptyped in *. rewrite Forall_forall in Hcl, Hcr, Htyl, Htyr.
-      destruct Hk as [Hk|Hk]; apply in_map_iff in Hk; destruct Hk as (p & <- & Hp); split; try (apply Hcl; exact Hp); try (apply Hcr; exact Hp).
-      - now destruct (Htyl _ Hp). - now destruct (Htyr _ Hp). }
+    assert (Hk : forall k, In k ks -> key_const k = true /\ tc k = Some it /\ okt k = true).
+    { intros k Hk. apply union_keys_In in Hk. unfold kconsts, ptyped, pokt in *. rewrite Forall_forall in Hcl, Hcr, Htyl, Htyr, Hol, Hor.
+      destruct Hk as [Hk|Hk]; apply in_map_iff in Hk; destruct Hk as (p & <- & Hp).
+      - destruct (Htyl _ Hp), (Hol _ Hp). split; [now apply Hcl | auto].
+      - destruct (Htyr _ Hp), (Hor _ Hp). split; [now apply Hcr | auto]. }
+    assert (Hks : forall k, In k ks -> key_sortb (kv k) it = true).
+    { intros k Hin. destruct (Hk k Hin) as (_ & Tk & Ok). unfold SimplifierSemArr_proofs.kv. apply has_ty_key_sortb. now apply okt_sound. }
     assert (Hget : forall k, In k ks ->
-               alook pl (fun _ => eval I dl) (kv k) = eval I (arr_get k pl dl) /\ alook pr (fun _ => eval I dr) (kv k) = eval I (arr_get k pr dr)).
+               alook pl (cdef I it dl) (kv k) = eval I (arr_get k pl dl) /\ alook pr (cdef I it dr) (kv k) = eval I (arr_get k pr dr)).
     { intros k Hin. destruct (Hk k Hin) as [Kc _]. unfold arr_get. rewrite !(alook_assoc_get I _ k Kc) by auto.
-      split; [destruct (assoc_get k pl) | destruct (assoc_get k pr)]; reflexivity. }
+      unfold cdef. rewrite (Hks k Hin). split; [destruct (assoc_get k pl) | destruct (assoc_get k pr)]; reflexivity. }
     assert (Hout : forall x, (forall k, In k ks -> kv k <> x) ->
-               alook pl (fun _ => eval I dl) x = eval I dl /\ alook pr (fun _ => eval I dr) x = eval I dr).
+               alook pl (cdef I it dl) x = cdef I it dl x /\ alook pr (cdef I it dr) x = cdef I it dr x).
     { intros x Hx. split; apply alook_notin; intros p Hp; apply Hx; apply union_keys_In; [left | right]; now apply in_map. }
+    assert (HnL : NoDup (map kv ks)).
+    { apply NoDup_map_on; [now apply union_keys_NoDup|]. intros a0 b0 Ha0 Hb0 Eab. destruct (Hk a0 Ha0) as [Ka _]. destruct (Hk b0 Hb0) as [Kb _].
+      now apply (kv_inj I). }
+    assert (HsL : forall x, In x (map kv ks) -> key_sortb x it = true).
+    { intros x Hx. apply in_map_iff in Hx. destruct Hx as (k & <- & Hin). now apply Hks. }
+    assert (Hzl : zlen ks = zlen (map kv ks)) by (unfold zlen; now rewrite map_length).
     destruct (combine_results _) as [[|]|] eqn:Ec; [| |discriminate E].
-    + (* every assigned index agrees: the defaults decide *)
-      pose proof (combine_true _ Ec) as Hall. rewrite (idx_ok_not_covered it _ Hit) in E.
-      pose proof (IH dl dr td b Odl Odr Tdl Tdr Cdl Cdr E) as Hd.
+    + (* every assigned index agrees *)
+      pose proof (combine_true _ Ec) as Hall.
       assert (Hkeys : forall k, In k ks -> eval I (arr_get k pl dl) = eval I (arr_get k pr dr)).
       { intros k Hin. assert (Ek : const_eqb f (arr_get k pl dl) (arr_get k pr dr) = Some true) by (apply Hall; apply in_map_iff; eauto).
         destruct (Gl k) as (A1 & A2 & A3). destruct (Gr k) as (B1 & B2 & B3).
         apply (IH _ _ td true A1 B1 A2 B2 A3 B3 Ek). reflexivity. }
-      split.
-      * intros Hb. f_equal. apply functional_extensionality. intros x.
+      assert (Hsame : (forall x, key_sortb x it = true -> (forall k, In k ks -> kv k <> x) -> eval I dl = eval I dr) ->
+                      alook pl (cdef I it dl) = alook pr (cdef I it dr)).
+      { intros Hdef. apply functional_extensionality. intros x.
         destruct (classic (exists k, In k ks /\ kv k = x)) as [(k & Hin & <-)|Hno].
-        -- destruct (Hget k Hin) as [-> ->]. now apply Hkeys.
-        -- destruct (Hout x) as [-> ->]; [intros k Hin Ex; apply Hno; eauto|]. now apply Hd.
-      * intros [= Hf]. apply Hd.
-        destruct (fresh_exists I it ks) as (x & Hx).
-        { apply Forall_forall. exact Hk. } { now apply idx_ok_infinite. }
-        destruct (Hout x Hx) as [E1 E2]. rewrite <- E1, <- E2. now rewrite Hf.
+        - destruct (Hget k Hin) as [-> ->]. now apply Hkeys.
+        - assert (Hx : forall k, In k ks -> kv k <> x) by (intros k Hin Ex; apply Hno; eauto).
+          destruct (Hout x Hx) as [-> ->]. unfold cdef. destruct (key_sortb x it) eqn:Sx; [|reflexivity]. now apply (Hdef x). }
+      destruct (idx_covered it (zlen ks)) eqn:Cov.
+      * (* the assigned indices cover the finite index sort: the defaults are not seen *)
+        inversion E; subst b. split; [intros _|reflexivity]. f_equal. apply Hsame. intros x Sx Hx. exfalso.
+        assert (Hf : finite_idx it = true) by (destruct it; try discriminate Cov; reflexivity).
+        rewrite Hzl in Cov. pose proof (keys_covered it _ Hf HnL HsL Cov x Sx) as Hin.
+        apply in_map_iff in Hin. destruct Hin as (k & Ek & Hin). exact (Hx k Hin Ek).
+      * (* some index of the sort is left to both defaults: they decide *)
+        pose proof (IH dl dr td b Odl Odr Tdl Tdr Cdl Cdr E) as Hd.
+        assert (Hfree : exists x, key_sortb x it = true /\ forall k, In k ks -> kv k <> x).
+        { destruct (idx_ok_cases it Hit) as [Hinf|Hfin].
+          - apply (fresh_exists I it ks); auto. apply Forall_forall. intros k Hin. destruct (Hk k Hin) as (A & B & _). auto.
+          - rewrite Hzl in Cov. destruct (keys_not_covered it _ Hfin HnL HsL Cov) as (x & Sx & Hx). exists x. split; auto.
+            intros k Hin Ek. apply Hx. apply in_map_iff. eauto. }
+        split.
+        -- intros Hb. f_equal. apply Hsame. intros x _ _. now apply Hd.
+        -- intros [= Hf]. apply Hd. destruct Hfree as (x & Sx & Hx).
+           destruct (Hout x Hx) as [E1 E2]. rewrite Hf, E2 in E1. unfold cdef in E1. now rewrite Sx in E1.
     + (* some assigned index disagrees *)
       inversion E; subst b. apply combine_false in Ec. apply in_map_iff in Ec. destruct Ec as (k & Ek & Hin).
       destruct (Gl k) as (A1 & A2 & A3). destruct (Gr k) as (B1 & B2 & B3).
